@@ -99,6 +99,14 @@ RCMsg(n, i, r) ==
               ELSE LET ss == Signers({m \in n.prep : m.round = n.lpr /\ m.value = n.lpv})
                    IN IF Card(ss) >= Q THEN ss ELSE {}
     IN [type |-> "rc", signer |-> i, round |-> r, pr |-> n.lpr, pv |-> n.lpv, js |-> js]
+(* `cur` = State.Round at the moment the message is built: the round being left on the timeout path (the message is
+   built before the bump), the NEW round on the f+1 pull path (built after it).  The faithful code reads the lock and
+   its prepares by LastPreparedRound, so `cur` does not matter; Weaken = "rcDropsStaleLock" reads the prepares of
+   `cur` instead and falls back to an unprepared round-change when they do not back the lock. *)
+RCMsgAt(n, i, r, cur) ==
+    IF Weaken = "rcDropsStaleLock" /\ n.lpr # 0 /\ n.lpr # cur
+    THEN [type |-> "rc", signer |-> i, round |-> r, pr |-> 0, pv |-> None, js |-> {}]
+    ELSE RCMsg(n, i, r)
 
 PQuorum == IF Weaken = "prepareQuorum-1" THEN Q - 1 ELSE Q
 CQuorum == IF Weaken = "commitQuorum-1" THEN Q - 1 ELSE Q
@@ -284,7 +292,7 @@ DoRC(i, m) ==
           ELSE IF Card(Signers(higher)) >= PQ /\ Weaken # "noPartialQuorumPull"
           THEN LET nr == CHOOSE p \in {x.round : x \in higher} : \A x \in higher : p <= x.round
                IN IF nr > n.round
-                  THEN Apply(i, [n1 EXCEPT !.round = nr, !.acc = NoProp], {RCMsg(n, i, nr)})
+                  THEN Apply(i, [n1 EXCEPT !.round = nr, !.acc = NoProp], {RCMsgAt(n, i, nr, nr)})
                   ELSE Apply(i, n1, {})
           ELSE Apply(i, n1, {})
 
@@ -310,7 +318,7 @@ Timeout(i) ==
     /\ n.round < MaxRound
     /\ Apply(i, [n EXCEPT !.round = @ + 1,
                           !.acc = IF Weaken = "timeoutKeepsProposal" THEN @ ELSE NoProp],
-             IF Weaken = "noRCBroadcast" THEN {} ELSE {RCMsg(n, i, n.round + 1)}) /\ NoByz
+             IF Weaken = "noRCBroadcast" THEN {} ELSE {RCMsgAt(n, i, n.round + 1, n.round)}) /\ NoByz
     /\ act' = [name |-> "Timeout", to |-> i, round |-> n.round]
 
 (* ---- macro steps (exhaustive configs): a node receives a whole set S of prepares / commits back-to-back.
